@@ -479,6 +479,16 @@ class ExternalVarsVisitor(ast.NodeVisitor):
                 return
         if local_dep_path in self.vars or local_dep_path in self._rejected_paths:
             return
+        if (
+            node.id in python_builtin_names
+            and node.id not in self._start_mod.__dict__
+            and node.id not in self._gctx.start_globals
+        ):
+            # A builtin (str, len, filter ...) is not a dependency. Without this check the name would be looked up
+            # as a module on sys.path: an unrelated file called str.py or filter.py in the working directory would
+            # be imported and change the signature.
+            self._rejected_paths.add(local_dep_path)
+            return
         # TODO: this will fail in submodule
         # if str(local_dep_path) not in self._start_mod.__dict__ or str(local_dep_path) not in self._gctx.start_globals:
         #     _logger.debug(
